@@ -639,6 +639,54 @@ SPECIAL_PAIRS = [
 ]
 
 
+RANGE_TYPES = ["float32", "float16", "float64", "int64", "int8"]
+RANGE_WIDTHS = [0.05, 0.1, 0.2, 0.25, 0.3, 0.5, 0.7, 2.5, 1.0]
+
+
+def eval_range_type(case):
+    """A range whose bounds are numpy scalars of a narrow type is the range of the same values as python floats: the binning
+    covers it and is the one the python floats give (fixed_width / pretty / integer factories and the h1 facade).
+    (seeded C07-grid-index-in-callers-float-type; repaired: a float32 range end equal to the rounded grid edge)"""
+    from physt import h1
+    from physt.binnings import fixed_width_binning, integer_binning, pretty_binning
+
+    w, k0, k1, typ, side, via = case["width"], case["k0"], case["k1"], case["type"], case["side"], case["via"]
+    t = getattr(np, typ)
+    lo, hi = k0 * w, k1 * w
+    if typ.startswith("int"):
+        lo, hi = float(math.floor(lo)), float(math.ceil(hi)) + (1.0 if math.ceil(hi) == math.floor(lo) else 0.0)
+    a = t(lo) if side in ("lo", "both") else lo - w / 3
+    b = t(hi) if side in ("hi", "both") else hi + w / 3
+    fa, fb = float(a), float(b)
+    if not fa < fb:
+        return [], "skip"
+
+    def make(r):
+        if via == "fixed_width":
+            return fixed_width_binning(None, w, range=r)
+        if via == "pretty":
+            return pretty_binning(None, 4, range=r)
+        if via == "integer":
+            return integer_binning(None, range=r)
+        return h1(np.array([fa, 0.5 * (fa + fb), fb]), "fixed_width", bin_width=w, range=r).binning
+
+    got, ref = call(make, (a, b)), call(make, (fa, fb))
+    tag = f"range_type|{via}|{typ}|{side}"
+    if not ref.ok:
+        return [], "ref-refused"
+    if not got.ok:
+        return [V("must_succeed", f"must_succeed|{tag}|{exc_sig(got.exc)}", case, "as for python floats", got.describe())], "raise"
+    e, r = np.asarray(got.value.numpy_bins).tolist(), np.asarray(ref.value.numpy_bins).tolist()
+    out = []
+    lo_cov = fa - 0.5 if via == "integer" else fa
+    hi_cov = fb - 0.5 if via == "integer" else fb
+    if not (e[0] <= lo_cov and hi_cov <= e[-1]):
+        out.append(V("coverage", f"coverage|{tag}", case, [fa, fb], [e[0], e[-1]]))
+    if e != r:
+        out.append(V("same_as_floats", f"same_as_floats|{tag}", case, r, e))
+    return out, "ok"
+
+
 def units(tier, seed):
     thorough = tier == "thorough"
     L = 4 if thorough else 3
@@ -654,6 +702,8 @@ def units(tier, seed):
         us.append({"kind": "explicit", "form": form})
     us.append({"kind": "ctor"})
     us.append({"kind": "rules"})
+    for via in ("fixed_width", "pretty", "integer", "h1"):
+        us.append({"kind": "range_types", "via": via, "K": 40 if thorough else 16})
     return us
 
 
@@ -754,6 +804,19 @@ def run_unit(unit, ctx):
                             p.outcome(f"ctorexp:{label}")
                             p.extend(vs)
         p.sample(case)
+    elif kind == "range_types":
+        K = unit["K"]
+        for w in RANGE_WIDTHS:
+            for k0 in range(-K, K + 1):
+                for k1 in (k0 + 1, k0 + 2, k0 + 5):
+                    for typ in RANGE_TYPES:
+                        for side in ("lo", "hi", "both"):
+                            case = {"width": w, "k0": k0, "k1": k1, "type": typ, "side": side, "via": unit["via"]}
+                            vs, label = eval_range_type(case)
+                            p.ev(typ != "float64")
+                            p.outcome(f"range_type:{label}")
+                            p.extend(vs)
+        p.sample(case)
     elif kind == "rules":
         for n in range(1, 131):
             for shape in ("uniform", "skewed", "cubic"):
@@ -772,4 +835,6 @@ def replay(case):
         return eval_explicit(case)[0]
     if "klass" in case:
         return eval_ctor(case)[0]
+    if "via" in case:
+        return eval_range_type(case)[0]
     return eval_rule({k: v for k, v in case.items() if k != "method"})
